@@ -124,7 +124,12 @@ def obs_C04(j, case):
             if t["k"] == "outsec":
                 for f in ("addr", "subalign"):
                     t.pop(f, None)
-        res.append([label, items])
+        # which input sections each output section captures (pattern and wildcard flag, not the files): what
+        # decides whether data meant for the NOLOAD part can end up in the loadable one
+        pats = {}
+        for ctx, t in _pick(ast, lambda s, c: s["k"] == "input"):
+            pats.setdefault(ctx[-1] if ctx else "", set()).add((t["sect"], bool(t.get("wild"))))
+        res.append([label, items, sorted((k, sorted(v)) for k, v in pats.items())])
     return [outcome(j), res]
 
 
@@ -154,7 +159,13 @@ def obs_all(j, case):
     files = None
     if g and "files" in g and case.files:
         files = g["files"]
-    return [outcome(j), res]
+        if isinstance(files, dict) and isinstance(files.get("ok"), list):
+            import os
+            d = {}
+            for p, c in files["ok"]:
+                d[os.path.normpath(p)] = c          # a later write to the same path replaces the earlier one
+            files = sorted(d.items())
+    return [outcome(j), res, files]
 
 
 def obs_C07(j, case):
@@ -261,7 +272,9 @@ def obs_C12(j, case):
 def obs_C13(j, case):
     res = []
     for label, ast, w in _asts(j):
-        res.append([label, w.get("symbols"), w.get("header")])
+        # the header, the recorded names, and the names the script assigns (what "declared == defined" compares)
+        assigned = sorted(set(s["sym"] for s, _ in sp.walk(ast) if s["k"] == "assign"))
+        res.append([label, w.get("symbols"), w.get("header"), assigned])
     return [outcome(j), res]
 
 
